@@ -242,7 +242,8 @@ def c13(tier):
             js.append(J("%spent_%d_%d" % (mode.lower(), p, c), "C13_childpos.c", ["-D" + mode, "-DPENTONLY", "-DPRES=%d" % p, "-DCRES=%d" % c], unwind=17, us=us, est=300, tier=t, timeout=1500, core=False, mem="M",
                         bound="pentagon parents only, parentRes=%d childRes=%d" % (p, c)))
     for p in (0, 3, 9, 15):
-        js += with_witness(J("err_%d" % p, "C13_childpos.c", ["-DERR", "-DPRES=%d" % p], unwind=17, us={"_ipow.0": 6}, est=20, bound="all int resolutions and positions, parents of res %d" % p))
+        j = J("err_%d" % p, "C13_childpos.c", ["-DERR", "-DPRES=%d" % p], unwind=17, us={"_ipow.0": 6}, est=20, bound="all int resolutions and positions, parents of res %d" % p)
+        js += with_witness(j) if p > 0 else [j]   # at parent res 0 no in-range child resolution is coarser: the mismatch branch does not exist
     return js
 
 
